@@ -27,7 +27,7 @@ def run_ser(pid, tier, seed, final_op, fmts, opts_quick, opts_thorough, clauses,
     runs.append(("shapes", 1, "min", kinds, opts))
     # (2) every attribute class x value kind on a few kinds
     runs.append(("shapes", 1, "all" if not quick else "values", ["entity", "generation", "derivation"]
-                 if not quick else ["entity", "association"], opts[:1] if quick else opts))
+                 if not quick else ["entity", "association"], opts))
     runs.append(("shapes", 1, "attrs", ["agent", "derivation", "entity"], opts[:1]))
     # (3) a second record / a bundle next to the first
     runs.append(("shapes", 2 if quick else 3, "min", ["entity", "generation", "membership", "activity"], opts[:1]))
